@@ -634,7 +634,14 @@ func (d *csDirector) intent(maxBits, blockNo int) (rig.Tx, bool) {
 		for _, dn := range d.denoms {
 			d.touched[dn] = true
 		}
-		return r.InjectRoute(a, tag, &cstypes.MsgUpdateParams{Authority: r.GovAddr.String(), Params: p}), true
+		up := &cstypes.MsgUpdateParams{Authority: r.GovAddr.String(), Params: p}
+		if rng.Intn(3) == 0 {
+			// the accepted update is followed by a message that fails: the whole transaction is rolled back and the
+			// configuration in force stays what it was, for every later swap too
+			tag.Note += "/rolled-back"
+			return r.InjectRoute(a, tag, up, banktypes.NewMsgSend(r.GovAddr, a.Addr, sdk.NewCoins(coin(d.std, pow2(250))))), true
+		}
+		return r.InjectRoute(a, tag, up), true
 	default: // unrelated bank send between users (must not disturb anything)
 		tag := &csTag{Kind: "send"}
 		b := r.Acc(rng.Intn(6))
